@@ -795,7 +795,9 @@ class Lexer:
             msg,
             token=ErrorToken(
                 type_=TokenType.ERROR,
-                index=self.pos,
+                # The span of the token is the text in `value`, like the
+                # "unexpected token" error of `accept_token`.
+                index=self.start,
                 value=self.source[self.start : self.pos],
                 markup_start=self.markup_start,
                 markup_stop=self.pos,
